@@ -1491,6 +1491,17 @@ class Interp:
         owner, found = info.find_method("__init__")
         if isinstance(found, list):
             f = VFunc(found[-1], owner.module, None, f"{owner.name}.__init__", owner)
+            ikey = self.func_key(f)
+            ic = self.reg.contracts.get(ikey) if ikey else None
+            top = self.reg.contracts.get(self.current_target) if self.current_target else None
+            if ic is not None and ic.self_model is not None and not ic.inline and not ic.call_inline \
+                    and not (top is not None and ikey in top.inline_callees) \
+                    and ikey != (self.current_target.split("#")[0] if self.current_target else None):
+                # the constructor is replaced by its contract: the new object starts as an arbitrary instance of the
+                # contract's model (nothing known about its fields) and the postconditions say what __init__ made of it
+                fo = self.fresh(("obj", ic.self_model), "new_" + info.name)
+                obj.fields.update(fo.fields)
+                obj.model = ic.self_model
             self.call(f.bind(obj), args, kwargs, node)
         elif _is_dataclass(info):
             # @dataclass without a hand-written __init__: the generated one assigns the annotated fields, in
